@@ -415,3 +415,121 @@ def rule_access_from_mode(ctx):
                              "and Hwrite's permission test passes on it" % render(x)[:70])
     ctx.floor("ACCMODE", 4, n, "(stores to access_rec->access in mode-parameterised start-access routines)")
     return n
+
+
+def _used_after(f, var, line, col, ignore=("free",)):
+    """is `var` used (other than as the argument of the ignored calls) on some CFG path after the call at (line, col)?"""
+    site = None
+    for bid, i, st in f.stmts():
+        for c in calls_in(st["e"]):
+            if c[5] == line and c[6] == col:
+                site = (bid, i)
+    if site is None:
+        return True
+
+    def uses(e):
+        ign = 0
+        for c in calls_in(e):
+            if c[1] in ignore:
+                for a in c[3]:
+                    ign += sum(1 for x in walk(a, True) if x[0] == "var" and x[1] == var)
+        cnt = sum(1 for x in walk(e, True) if x[0] == "var" and x[1] == var)
+        lhs = sum(1 for x in walk(e, True) if x[0] == "asg" and x[1] == "=" and kind(strip(x[2])) == "var" and strip(x[2])[1] == var)
+        return cnt - ign - lhs > 0, lhs > 0
+    seen = set()
+    work = [(site[0], site[1] + 1)]
+    while work:
+        bid, idx = work.pop()
+        if (bid, idx) in seen:
+            continue
+        seen.add((bid, idx))
+        b = f.blocks[bid]
+        stop = False
+        for j in range(idx, len(b["s"])):
+            u, d = uses(b["s"][j]["e"])
+            if u:
+                return True
+            if d:
+                stop = True
+                break
+        if not stop:
+            for sb in b["succ"]:
+                if sb >= 0:
+                    work.append((sb, 0))
+    return False
+
+
+def rule_converted_value_used(ctx):
+    """CONVUSED (C04, C06): DFKconvert(src, dst, ..) produces the file-order (or memory-order) representation in `dst`.
+    When `dst` is a local buffer, something other than free() must consume it afterwards; if only `src` is passed on, the
+    unconverted bytes are stored (e.g. the fill value of a chunked dataset in the wrong byte order)."""
+    prog = ctx.prog
+    n = 0
+    for f in prog.lib_funcs():
+        k = 0
+        for _b, _i, st, c in f.calls():
+            if c[1] != "DFKconvert" or len(c[3]) < 2:
+                continue
+            d = strip(c[3][1])
+            while kind(d) in ("cast",):
+                d = strip(d[2])
+            if kind(d) == "addr":
+                d = strip(d[1])
+            if kind(d) != "var" or d[2] != "l":
+                continue
+            if strip(c[3][0]) == strip(c[3][1]) or (kind(strip(c[3][0])) == "var" and strip(c[3][0])[1] == d[1]):
+                continue  # in-place conversion: the same buffer is source and destination
+            n += 1
+            k += 1
+            key = "CONVUSED:%s:%s#%d" % (f.name, d[1], k)
+            if _used_after(f, d[1], c[5], c[6]):
+                ctx.holds("CONVUSED", key, f.where(c[5]), "`%s` is consumed after the conversion" % d[1], nontrivial=True)
+            else:
+                ctx.violated("CONVUSED", key, f.where(c[5]), "DFKconvert() writes the converted bytes to `%s`, but nothing except free() uses `%s` afterwards: the unconverted source is what gets stored" % (d[1], d[1]))
+    ctx.floor("CONVUSED", 10, n, "(DFKconvert calls with a local destination)")
+    return n
+
+
+def rule_seek_resets_cursor(ctx):
+    """SEEKRESET (C04, C05): a coder's seek must leave no stale decode position behind.  For every coder, the `seek` slot
+    function either re-runs the coder's init/staccess routine (and decodes forward) or assigns every cursor field (name
+    contains `pos`, or `offset`) of the coder's state record that the init routine assigns."""
+    prog = ctx.prog
+
+    def assigned(f):
+        out = set()
+        for _b, _i, _s, x in f.nodes(True):
+            if x[0] == "asg":
+                mf = mem_field(x[2])
+                if mf:
+                    out.add(mf)
+            elif x[0] == "incdec":
+                mf = mem_field(x[3])
+                if mf:
+                    out.add(mf)
+        return out
+    n = 0
+    for c in ("rle", "nbit", "skphuff", "deflate", "szip"):
+        ini = prog.func("HCIc%s_init" % c)
+        sk = prog.func("HCPc%s_seek" % c)
+        if ini is None or sk is None:
+            if c != "szip":
+                ctx.unrecognised("SEEKRESET", "SEEKRESET:%s" % c, "-", "init or seek routine of the %s coder not found" % c)
+            continue
+        n += 1
+        key = "SEEKRESET:%s" % c
+        callees = {x[1] for _, _, _, x in sk.calls()}
+        reinit = {"HCIc%s_init" % c, "HCIc%s_staccess2" % c, "HCIc%s_staccess" % c} & callees
+        cursor = {mf for mf in assigned(ini) if c in mf[0].lower() and "coder" in mf[0].lower() and ("pos" in mf[1] or mf[1] == "offset")}
+        if reinit:
+            ctx.holds("SEEKRESET", key, sk.where(), "seek re-runs %s" % sorted(reinit)[0], nontrivial=True)
+            continue
+        missing = sorted(mf[1] for mf in cursor - assigned(sk))
+        if not cursor:
+            ctx.unrecognised("SEEKRESET", key, ini.where(), "no cursor field recognised in the init routine")
+        elif missing:
+            ctx.violated("SEEKRESET", key, sk.where(), "seek neither re-initialises the coder nor resets `%s` (which the init routine sets): the next read continues from the buffer position of the previous one" % ", ".join(missing))
+        else:
+            ctx.holds("SEEKRESET", key, sk.where(), "seek assigns every cursor field of the coder state (%s)" % ", ".join(sorted(mf[1] for mf in cursor)), nontrivial=True)
+    ctx.floor("SEEKRESET", 4, n, "(coders with a seek routine)")
+    return n
